@@ -74,6 +74,17 @@ class Prov:
         up = self._upvar(b, place, depth)
         if up is not None:
             return up
+        # field-sensitive for locals built by an aggregate in this body: `(a, b).0` is `a`, not `a` and `b`
+        first = place[1]
+        if isinstance(first, (list, tuple)) and first[0] == "f":
+            ds = dataflow.def_sites(b).get(place[0], [])
+            if ds and all(d[0] == "stmt" and d[3][0] == "agg" and d[3][1] in ("tuple", "adt") for d in ds):
+                out = set()
+                for d in ds:
+                    ops = d[3][4]
+                    if first[1] < len(ops):
+                        out |= self.operand_labels(b, ops[first[1]], depth + 1)
+                return out
         return self.labels(b, place[0], depth)
 
     def _upvar(self, b, place, depth):
@@ -132,11 +143,7 @@ class Prov:
                     out |= self.operand_labels(b, op, depth + 1)
             elif k == "place":
                 pl = [r[1]] + [list(e) if isinstance(e, tuple) else e for e in r[2]]
-                up = self._upvar(b, pl, depth)
-                if up is not None:
-                    out |= up
-                else:
-                    out |= self.labels(b, r[1], depth + 1)
+                out |= self.place_labels(b, pl, depth + 1)
             elif k == "const":
                 out.add(("CONST", r[1]))
             elif k == "other":
